@@ -196,4 +196,18 @@ CLAIMS["C06"] = {
     "design_ref": "DESIGN.md §4 C06",
 }
 
+CLAIMS["C16"] = {
+    "technique": "path rules and provenance over resolved MIR; sibling-implementation comparison; symbolic byte-count ledger",
+    "text": "Decides the structural clauses: every None path of the decoder leaves its data untouched, so it stops for good and into_inner "
+            "returns the undecoded suffix (R16.1); a pair is split off only under data.len() >= total_len with total_len = bytes consumed "
+            "by the two length prefixes (the advancing cursor) + name_len + val_len, all via checked_add, and is carved as "
+            "prefix.advance_by(head).split_at(name_len) (R16.2); one generic Iterator impl serves shared and mutable slices and the two "
+            "Bytes impls have the same shape (R16.3); the encoder validates lengths through VarInt::try_from (InvalidInput), writes "
+            "prefix, prefix, name, value and returns exactly the bytes written (R16.4); size_hint is (0, len/2) (R16.5). Zero-copy is a "
+            "type-level fact (witness). Does NOT decide round-trip equality, prefix-monotonicity over all inputs, or the size-hint "
+            "inequality as computed facts.",
+    "note": "VarInt::read/write behaviour is C15's subject.",
+    "design_ref": "DESIGN.md §4 C16",
+}
+
 PENDING_REASON = "rules for this property are not built yet (build in progress; DESIGN.md §7 gives the order)"
